@@ -397,13 +397,19 @@ def m_del(pre, ev, post):
         allowed = set()
 
         def inbound_of(spi):
-            c = next((c for c in sa.child_sas if spi in (bytes(c.inbound_spi), bytes(c.outbound_spi))), None)
+            # (the CHILD_SAs of a replaced IKE_SA are its successor's: look at all IKE_SAs of the endpoint)
+            c = next((c for x_ in ep.controller.ike_sas for c in x_.child_sas
+                      if spi in (bytes(c.inbound_spi), bytes(c.outbound_spi))), None)
             return bytes(c.inbound_spi) if c is not None else None
         if ev[0] == 'expire' and ev[1] == d.sender and ev[3]:
             allowed.add(inbound_of(ev[2]))
-        for x in sa.pending_events:
-            if getattr(x[0], '__name__', '') == 'process_expire' and len(x) > 2 and x[2]:
-                allowed.add(inbound_of(bytes(x[1])))
+        # hard expiries that were queued while an exchange was outstanding - on this IKE_SA, or on the IKE_SA it replaced (what
+        # was waiting there is handed over when the replaced IKE_SA ends)
+        for holder in ep.controller.ike_sas:
+            if holder is sa or holder.new_ike_sa is sa or bytes(getattr(holder.new_ike_sa, 'my_spi', b'')) == bytes(sa.my_spi):
+                for x in holder.pending_events:
+                    if getattr(x[0], '__name__', '') == 'process_expire' and len(x) > 2 and x[2]:
+                        allowed.add(inbound_of(bytes(x[1])))
         kind, dg = event_kind(pre, ev)
         if kind == 'response':
             allowed |= _request_spis(sa)
